@@ -240,9 +240,11 @@ def eval_accuracy(spec):
     want = pot(spec.get("reference", spec["density"]), pts)
     err = float(np.max(np.abs(got - want)))
     k = int(np.argmax(np.abs(got - want)))
-    _note(spec.get("cid"), err, spec["tol"], t0)
-    if not err <= spec["tol"]:
-        return False, (f"max |V - V_analytic| = {err:.3e} > {spec['tol']:.1e} (scale {np.max(np.abs(want)):.3g}); at point {pts[k].tolist()}: "
+    # "rel": potentials of many-electron cores are O(Z): the documented absolute accuracy refers to unit charges
+    tol = spec["tol"] * (max(1.0, float(np.max(np.abs(want)))) if spec.get("rel") else 1.0)
+    _note(spec.get("cid"), err, tol, t0)
+    if not err <= tol:
+        return False, (f"max |V - V_analytic| = {err:.3e} > {tol:.1e} (scale {np.max(np.abs(want)):.3g}); at point {pts[k].tolist()}: "
                        f"{got[k]:.8g} vs {want[k]:.8g}")
     # the returned potential is a pointwise function without state: a sub-batch gives the same values, a second call too
     sub = np.asarray(V(pts[3:9]), dtype=float)
@@ -257,6 +259,7 @@ def eval_accuracy(spec):
 
 
 KNOWN_ORIGIN = ":known-origin-node-nonconvergence"
+KNOWN_NNLS = ":known-nnls-iteration-limit"
 
 
 def accuracy_contract(col, cid, spec):
@@ -281,6 +284,17 @@ def accuracy_contract(col, cid, spec):
             ok2 = False
         if ok2:
             col.last_failure["case_id"] = cid + KNOWN_ORIGIN
+    # Recorded finding: the split-2 fit calls scipy.optimize.nnls with its default iteration limit on the badly conditioned default basis; on some
+    # ordinary two-centre densities it raises.  Signature: exactly that RuntimeError with split2=True while the same input passes with split2=False.
+    if (spec["solver"] == "robust" and opts.get("split2") and detail.startswith("RuntimeError") and "Maximum number of iterations" in detail):
+        spec2 = copy.deepcopy(spec)
+        spec2["options"]["split2"] = False
+        try:
+            ok2, _ = eval_accuracy(spec2)
+        except Exception:  # noqa: BLE001
+            ok2 = False
+        if ok2:
+            col.last_failure["case_id"] = cid + KNOWN_NNLS
     return ok
 
 
@@ -434,11 +448,44 @@ EVAL = {"accuracy": eval_accuracy, "linearity": eval_linearity, "mol-identity": 
         "robust-structure": eval_robust_structure, "robust-vs-plain": eval_robust_vs_plain}
 
 
+KNOWN_LAST = ":known-last-atom-values-on-every-atom"
+
+
+def laplacian_last_atom_signature(spec):
+    """Recorded finding: on a grid with several atoms interpolate_laplacian evaluates every atom with the value slice of the *last* atom (the
+    per-atom closure is looked up by name after the loop).  Equal atomic sizes: the result is exactly sum_A L_A[(w f)|last atom]; different sizes:
+    the spline construction of the first atom raises the size-mismatch error although every atomic piece alone is fine."""
+    pts = np.asarray(spec["points"], dtype=float)
+    grid, ags, itf = build(spec["grid"])
+    if len(ags) < 2:
+        return False
+    vals = dens(spec["density"], grid.points)
+    last = (vals * np.asarray(grid.aim_weights, dtype=float))[grid.size - ags[-1].size:]
+    if all(ag.size == ags[-1].size for ag in ags):
+        whole = np.asarray(interpolate_laplacian(grid, vals)(pts), dtype=float)
+        wrong = sum(np.asarray(interpolate_laplacian(ag, last)(pts), dtype=float) for ag in ags)
+        return bool(np.max(np.abs(whole - wrong)) <= 1e-9 * (1.0 + np.max(np.abs(wrong))))
+    try:
+        interpolate_laplacian(grid, vals)(pts)
+    except ValueError as e:
+        first_bad = next(ag for ag in ags if ag.size != ags[-1].size)
+        return "size of values does not match" in str(e) and f"{last.size}" in str(e) and f"{first_bad.size}" in str(e)
+    return False
+
+
 def contract(col, kind, cid, spec):
     if kind == "accuracy":
         return accuracy_contract(col, cid, spec)
     spec = dict(spec, cid=cid)
-    return col.check(cid, lambda: EVAL[kind](spec), inputs={"contract": kind, "spec": spec}, sample={"case": cid})
+    ok = col.check(cid, lambda: EVAL[kind](spec), inputs={"contract": kind, "spec": spec}, sample={"case": cid})
+    if not ok and col.last_failure is not None and kind == "mol-identity" and spec["solver"] == "laplacian":
+        try:
+            same = laplacian_last_atom_signature(spec)
+        except Exception:  # noqa: BLE001
+            same = False
+        if same:
+            col.last_failure["case_id"] = cid + KNOWN_LAST
+    return ok
 
 
 # ---------------------------------------------------------------------------------------------------------- input families
@@ -489,7 +536,9 @@ def fam_bvp_atomic_s(col, g, tier):
                 tf, n = ("HandyMod", [float(g.choice([0.0, 1e-5])), float(g.uniform(40.0, 70.0)), int(g.choice([2, 3]))], kw), int(g.integers(58, 77))
             gs = atom_grid(tf[0], tf[1], tf[2], n, int(g.choice([3, 5, 7])), rule=rule, center=centre)
             no_origin = opts.get("include_origin", True) is False
-            pts = mkpts(g, [centre], 0.4 if no_origin else 0.05, 6.0)
+            if no_origin and tfn == "Becke":
+                gs["atoms"][0]["n"] = int(g.integers(64, 77))
+            pts = mkpts(g, [centre], 0.6 if no_origin else 0.05, 6.0)      # without the origin node the error is about r_1 V(0) / r
             terms = s_terms(g, int(g.integers(1, 4)), centre, amax=3.0 if no_origin else 4.0)
             spec = {"solver": "bvp", "grid": gs, "density": terms, "options": dict(opts), "points": pts.tolist(),
                     "tol": 1e-2 if no_origin else 2e-3, "np_seed": int(g.integers(1 << 30))}
@@ -504,7 +553,7 @@ def aniso_terms(g, pts, centre, kinds):
             d *= g.uniform(0.05, 0.3) / np.linalg.norm(d)
             terms.append({"t": "s", "a": float(g.uniform(0.5, 3.0)), "c": float(g.uniform(0.4, 0.8)), "at": (np.asarray(centre) + d).tolist()})
         elif k == "s":
-            terms += s_terms(g, 1, centre, amax=3.0)
+            terms += [dict(t, c=0.8 * t["c"]) for t in s_terms(g, 1, centre, amax=3.0)]
         else:
             name = {1: L1, 2: L2, 3: L3}[k][int(g.integers(len({1: L1, 2: L2, 3: L3}[k])))]
             terms.append(scaled_term(g, name, g.uniform(0.5, 4.0), pts, centre))
@@ -524,11 +573,12 @@ def fam_bvp_atomic_aniso(col, g, tier):
                 tfn, tf = "handymod", ("HandyMod", [float(g.choice([0.0, 1e-5])), float(g.uniform(40.0, 70.0)), int(g.choice([2, 3]))], {})
             has_s = any(k in ("s", "off") for k in kinds)
             deg = int(g.choice([9, 11])) if "off" in kinds else int(g.choice([7, 9]))
-            gs = atom_grid(tf[0], tf[1], tf[2], int(g.integers(58, 77)), deg, center=centre)
-            pts = mkpts(g, [centre], 0.4, 4.0)
+            gs = atom_grid(tf[0], tf[1], tf[2], int(g.integers(64 if has_s else 58, 77)), deg, center=centre)
+            # without the origin node u(r_1) = 0 replaces u(0) = 0: an s-type part is off by about r_1 V(0) / r, so stay away from the nucleus
+            pts = mkpts(g, [centre], 0.6 if has_s else 0.4, 4.0)
             terms = aniso_terms(g, pts, centre, kinds)
             spec = {"solver": "bvp", "grid": gs, "density": terms, "options": {"include_origin": False}, "points": pts.tolist(),
-                    "tol": 1e-2 if has_s else 3e-3, "np_seed": int(g.integers(1 << 30))}
+                    "tol": 1e-2 if has_s else 5e-3, "np_seed": int(g.integers(1 << 30))}
             contract(col, "accuracy", f"solve_poisson_bvp:atomic-{name}:{tfn}:no-origin", spec)
     # one polynomial at a time, all of l = 1 and l = 2: a permutation of the m-list or a wrong l in a single equation cannot hide
     names = L1 + L2 if tier != "quick" else [L1[int(g.integers(3))], L2[int(g.integers(5))]]
@@ -619,10 +669,11 @@ def fam_ivp(col, g, tier):
                 "options": {"r_interval": [300.0, 1e-2], "ode_params": {"rtol": 1e-10, "atol": 1e-10}}, "points": pts.tolist(), "tol": 1e-5, "np_seed": 7}
         contract(col, "linearity", "solve_poisson_ivp:linearity", spec)
         # l > 0 equations of the initial-value formulation: zero start values at r_max are exact when the multipole moment vanishes
-        name = (L1 + L2)[int(g.integers(8))]
+        name = L1[int(g.integers(3))]
         l = POLY[name][0]
         a, b = float(g.uniform(0.8, 1.5)), float(g.uniform(2.0, 3.0))
         gs = atom_grid("Becke", becke_args(g, (1e-5, 1e-6)), {}, int(g.integers(64, 77)), 5)
+        pts = mkpts(g, [np.zeros(3)], 0.4, 5.0)
         t1 = scaled_term(g, name, a, pts)
         t2 = dict(t1, a=b, c=-t1["c"] * (b / a) ** (l + 1.5))
         spec = {"solver": "ivp", "grid": gs, "density": [t1, t2], "options": {"r_interval": [50.0, 0.05]}, "points": pts.tolist(), "tol": 1e-2, "np_seed": 7}
@@ -663,11 +714,14 @@ def fam_laplacian(col, g, tier):
                     "ab": [float(g.uniform(0.5, 2)), float(g.uniform(-2, -0.5))], "points": pts.tolist(), "tol": 1e-2, "cutoff": float(g.uniform(0.02, 0.1))}
             contract(col, "laplacian", f"interpolate_laplacian:atomic-{name}:{tfn}", spec)
     for rep in range(reps):
-        gs = mol_grid(g, ("Becke", becke_args(g), {}), (int(g.choice([5, 7])), int(g.choice([7, 9]))), (int(g.integers(40, 50)), int(g.integers(50, 60))), (1, 8), 1.0, 3.0)
-        cs = centres(gs)
-        terms = [dict(t) for c in cs for t in s_terms(g, 1, c, amax=2.5)]
-        spec = {"solver": "laplacian", "grid": gs, "density": terms, "options": {}, "points": mkpts(g, cs, 0.4, 3.0).tolist(), "tol": 1e-9}
-        contract(col, "mol-identity", "interpolate_laplacian:two-centre:sum-over-atoms", spec)
+        for name in ("equal-sizes", "different-sizes"):
+            n1, d1 = int(g.integers(40, 50)), int(g.choice([5, 7]))
+            n2, d2 = (n1, d1) if name == "equal-sizes" else (int(g.integers(50, 60)), int(g.choice([7, 9])))
+            gs = mol_grid(g, ("Becke", becke_args(g), {}), (d1, d2), (n1, n2), (1, 8), 1.0, 3.0)
+            cs = centres(gs)
+            terms = [dict(t) for c in cs for t in s_terms(g, 1, c, amax=2.5)]
+            spec = {"solver": "laplacian", "grid": gs, "density": terms, "options": {}, "points": mkpts(g, cs, 0.4, 3.0).tolist(), "tol": 1e-9}
+            contract(col, "mol-identity", f"interpolate_laplacian:two-centre:{name}:sum-over-atoms", spec)
 
 
 def fam_robust(col, g, tier):
@@ -693,14 +747,15 @@ def fam_robust(col, g, tier):
                 contract(col, "accuracy", f"solve_poisson_robust:core-model:two-centre:split2-{split2}", spec)
         # robust = core + numeric(residual); agreement with the plain solver and the analytic potential on smooth densities
         for z in ((1, 6) if rep == 0 else (7, 8)):
-            gs = atom_grid("Becke", becke_args(g), {}, int(g.integers(58, 77)), 5)
+            # the residual contains the (negative) sharp core Gaussians: the mesh has to resolve them
+            gs = atom_grid("Becke", becke_args(g), {}, int(g.integers(58, 77)) if z == 1 else int(g.integers(90, 121)), 5)
             pts = mkpts(g, [np.zeros(3)], 0.1, 5.0)
             terms = s_terms(g, int(g.integers(1, 3)), amax=3.0)
             spec = {"solver": "robust", "atnums": [z], "grid": gs, "density": terms, "options": {}, "points": pts.tolist(), "tol": 1e-7,
                     "np_seed": int(g.integers(1 << 30))}
             contract(col, "robust-structure", f"solve_poisson_robust:core-plus-residual:Z{z}", spec)
-            contract(col, "robust-vs-plain", f"solve_poisson_robust:smooth-density:Z{z}", dict(spec, tol=1e-2))
-            contract(col, "accuracy", f"solve_poisson_robust:smooth-density:Z{z}:split2-True", dict(spec, tol=1e-2, options={"split2": True}))
+            contract(col, "robust-vs-plain", f"solve_poisson_robust:smooth-density:Z{z}", dict(spec, tol=2e-3))
+            contract(col, "accuracy", f"solve_poisson_robust:smooth-density:Z{z}:split2-True", dict(spec, tol=2e-3, options={"split2": True}))
         # split 2: members of the fit basis on top of the core model are removed analytically (single centre: exact)
         basis = sorted(float(x) for x in g.uniform(0.3, 5.0, 3))
         gs = atom_grid("Becke", becke_args(g), {}, int(g.integers(58, 77)), 5)
@@ -721,7 +776,7 @@ def fam_robust(col, g, tier):
         terms = core_terms(1, cs[0]) + core_terms(8, cs[1]) + extra
         for split2 in ((False, True) if tier != "quick" else (bool(g.integers(2)),)):
             spec = {"solver": "robust", "atnums": [1, 8], "grid": gs, "density": terms, "options": {"split2": split2, "include_origin": False},
-                    "points": mkpts(g, cs, 0.4, 4.0).tolist(), "tol": 1e-2, "np_seed": int(g.integers(1 << 30))}
+                    "points": mkpts(g, cs, 0.4, 4.0).tolist(), "tol": 1e-2, "rel": True, "np_seed": int(g.integers(1 << 30))}
             contract(col, "accuracy", f"solve_poisson_robust:two-centre:core+smooth:split2-{split2}", spec)
 
 
